@@ -51,5 +51,9 @@ def specs_to_ir(specs, version='0.1b1', debug=False, route_whitelist_filter=None
         else:
             partial_asts.append(partial_ast)
 
-    return IRGenerator(partial_asts, version, debug=debug,
-                       route_whitelist_filter=route_whitelist_filter).generate_IR()
+    try:
+        return IRGenerator(partial_asts, version, debug=debug,
+                           route_whitelist_filter=route_whitelist_filter).generate_IR()
+    except RecursionError:
+        # Types are resolved recursively along nesting and inheritance.
+        raise InvalidSpec('Definitions are nested too deeply.', None, path)
